@@ -162,7 +162,20 @@ pub struct VRec {
     pub scenario: Value,
 }
 
+/// The ambient environment is a seam the simulator owns: every variable a worker inherits is
+/// removed before the first run (COLUMNS, LINES, NO_COLOR, CLICOLOR*, TERM, SHELL, COMPLETE, ...),
+/// so that only scenario events can put one back.
+fn scrub_environment() {
+    let names: Vec<std::ffi::OsString> = std::env::vars_os().map(|(k, _)| k).collect();
+    for k in names {
+        if k != "PATH" {
+            std::env::remove_var(&k);
+        }
+    }
+}
+
 fn limit_resources() {
+    scrub_environment();
     // An unbounded allocation in the code under simulation must abort the worker, not the VM.
     unsafe {
         let lim = libc::rlimit {
@@ -821,43 +834,54 @@ pub fn run_property(e: &dyn DynEngine, o: RunOpts) -> i32 {
     let mut n_viol = 0u64;
     for (gi, (key, vs)) in groups.iter().enumerate() {
         n_viol += vs.len() as u64;
-        // smallest scenario first (by JSON length) as the starting point
-        let (first, lostp) = vs.iter().min_by_key(|(v, _)| serde_json::to_string(&v.scenario).map(|s| s.len()).unwrap_or(usize::MAX)).unwrap();
-        let orig = serde_json::to_string(&first.scenario).unwrap();
-        let mut scen = orig.clone();
-        let mut shrink_steps = 0usize;
-        if gi < 4 && !*lostp {
-            if let Some((s2, st)) = shrink_in_child(prop, &orig, key, if o.tier == Tier::Quick { 1500 } else { 4000 }, Duration::from_secs(240)) {
-                scen = s2;
-                shrink_steps = st;
+        // Candidates smallest first (by JSON length). A candidate must reproduce on its own in a fresh
+        // process before it is minimised: a violation that needs state left behind by an earlier run of
+        // the same worker (process-global state in the code under simulation) is not self-contained.
+        let mut cands: Vec<&(VRec, bool)> = vs.iter().collect();
+        cands.sort_by_key(|(v, _)| serde_json::to_string(&v.scenario).map(|s| s.len()).unwrap_or(usize::MAX));
+        let mut chosen: Option<(&(VRec, bool), String, u64, Vec<String>, String)> = None;
+        for cand in cands.iter().take(25) {
+            let js = serde_json::to_string(&cand.0.scenario).unwrap();
+            match exec_in_child(prop, &js, hang) {
+                Ok((viols, h, log)) => {
+                    if let Some(v) = viols.iter().find(|v| v.key() == *key) {
+                        chosen = Some((cand, js, h, log, v.detail.clone()));
+                        break;
+                    }
+                }
+                Err(how) => {
+                    if cand.1 {
+                        chosen = Some((cand, js, 0, vec![], how));
+                        break;
+                    }
+                }
             }
         }
-        // Re-execute the (minimised) scenario in a fresh process: must fail the same way.
-        let (confirmed, log_hash, log, detail) = match exec_in_child(prop, &scen, hang) {
-            Ok((viols, h, log)) => match viols.iter().find(|v| v.key() == *key) {
-                Some(v) => (true, h, log, v.detail.clone()),
-                None => (false, h, log, first.violation.detail.clone()),
-            },
-            Err(how) => (*lostp, 0, vec![], how),
-        };
-        let (scen, confirmed, log_hash, log, detail) = if confirmed {
-            (scen, true, log_hash, log, detail)
-        } else {
-            // fall back to the unshrunk scenario
-            match exec_in_child(prop, &orig, hang) {
-                Ok((viols, h, log)) => match viols.iter().find(|v| v.key() == *key) {
-                    Some(v) => (orig.clone(), true, h, log, v.detail.clone()),
-                    None => (orig.clone(), false, h, log, first.violation.detail.clone()),
-                },
-                Err(how) => (orig.clone(), *lostp, 0, vec![], how),
-            }
-        };
-        if !confirmed {
+        let Some((cand, orig, h0, log0, detail0)) = chosen else {
             eprintln!(
-                "HARNESS-ERROR violation {}/{} on {} did not reproduce in a fresh process (nondeterminism in the harness)",
-                key.0, key.1, first.label
+                "HARNESS-ERROR violation {}/{} ({} occurrences, e.g. {}) did not reproduce in a fresh process for any of the first 25 candidates: the outcome depends on state left by earlier runs in the same worker process",
+                key.0, key.1, vs.len(), vs[0].0.label
             );
             return 2;
+        };
+        let first = &cand.0;
+        let lostp = &cand.1;
+        let mut scen = orig.clone();
+        let mut shrink_steps = 0usize;
+        let (mut log_hash, mut log, mut detail) = (h0, log0, detail0);
+        if gi < 4 && !*lostp {
+            if let Some((s2, st)) = shrink_in_child(prop, &orig, key, if o.tier == Tier::Quick { 1500 } else { 4000 }, Duration::from_secs(240)) {
+                shrink_steps = st;
+                // Re-execute the minimised scenario in a fresh process: must fail the same way.
+                if let Ok((viols, h, l)) = exec_in_child(prop, &s2, hang) {
+                    if let Some(v) = viols.iter().find(|v| v.key() == *key) {
+                        scen = s2;
+                        log_hash = h;
+                        log = l;
+                        detail = v.detail.clone();
+                    }
+                }
+            }
         }
         let body = json!({
             "property": prop,
